@@ -1899,6 +1899,10 @@ class MapResult(ApplyResult):
         success, result = success_result
         if success:
             self._value[i * self._chunksize:(i + 1) * self._chunksize] = result
+            # this chunk is done: its worker no longer works on the job.
+            for j in range(i * self._chunksize,
+                           min((i + 1) * self._chunksize, self._length)):
+                self._worker_pid[j] = None
             self._number_left -= 1
             if self._number_left == 0:
                 if self._callback:
@@ -1990,6 +1994,7 @@ class IMapIterator:
 
     def _set(self, i, obj):
         with self._cond:
+            self._part_pids.pop(i, None)
             if self._index == i:
                 self._items.append(obj)
                 self._index += 1
@@ -2021,7 +2026,8 @@ class IMapIterator:
         return self._ready
 
     def worker_pids(self):
-        return self._worker_pids
+        # workers of the parts that are still unfinished.
+        return list(self._part_pids.values())
 
     def _part_worker_pid(self, i):
         return self._part_pids.get(i)
@@ -2035,6 +2041,7 @@ class IMapUnorderedIterator(IMapIterator):
 
     def _set(self, i, obj):
         with self._cond:
+            self._part_pids.pop(i, None)
             self._items.append(obj)
             self._index += 1
             self._cond.notify()
